@@ -1,3 +1,995 @@
 // Included into daemon/src/convert.rs as `mod verif_harness` (guard: cfg osrg_rustybgp_verif).
+//
+// C17, value half.  Three tests, all driven by files named in the environment:
+//
+//   c17_cases      VERIF_IN: one API input case per line, tab separated, as concretised by checks/C17.py from the
+//                  cases TLC printed for spec/ApiValue/ApiValue.tla
+//                      A <i> <kind> <a> <b> <t:n,t:n,...>        attribute case
+//                      N <i> <kind> <family> <a> <b>             NLRI case
+//                  VERIF_OUT: one JSON object per case: what attr_from_api / net_from_api did, the projection of
+//                  the accepted value, and whether it survives display (round trip), the wire and use.
+//   c17_roundtrip  VERIF_OUT: every sample value and every value decoded from the wire goes to its API form and back.
+//
+// A panic in the code under test is caught and reported as data.
 #[allow(unused_imports)]
 use super::*;
+use std::io::{BufRead, Write as _};
+use std::panic::{AssertUnwindSafe, catch_unwind};
+use std::sync::Arc;
+
+use rustybgp_packet::bgp;
+use rustybgp_table as table;
+
+#[allow(dead_code)]
+mod samples {
+    include!(concat!(env!("OSRG_RUSTYBGP_VERIF_DIR"), "/../lib/src/samples.rs"));
+}
+
+fn esc(s: &str) -> String {
+    let mut o = String::new();
+    for ch in s.chars() {
+        match ch {
+            '"' => o.push_str("\\\""),
+            '\\' => o.push_str("\\\\"),
+            '\n' => o.push_str("\\n"),
+            c if (c as u32) < 0x20 => o.push(' '),
+            c => o.push(c),
+        }
+    }
+    o
+}
+
+fn panic_msg(e: Box<dyn std::any::Any + Send>) -> String {
+    if let Some(s) = e.downcast_ref::<&str>() {
+        s.to_string()
+    } else if let Some(s) = e.downcast_ref::<String>() {
+        s.clone()
+    } else {
+        "panic".to_string()
+    }
+}
+
+// ------------------------------------------------------------------------------------------ concretisation
+
+fn addr(tag: &str) -> String {
+    match tag {
+        "v4" => "192.0.2.1",
+        "v6" => "2001:db8::1",
+        "empty" => "",
+        "garbage" => "not-an-address",
+        "v4space" => " 192.0.2.1",
+        "v4mapped" => "::ffff:192.0.2.1",
+        x => panic!("harness: addr tag {x}"),
+    }
+    .to_string()
+}
+
+fn num(tag: &str) -> u32 {
+    match tag {
+        "u32max" => u32::MAX,
+        x => x.parse().unwrap_or_else(|_| panic!("harness: num tag {x}")),
+    }
+}
+
+fn wrap(a: api::attribute::Attr) -> api::Attribute {
+    api::Attribute { attr: Some(a) }
+}
+
+fn ext(kind: &str, fault: &str) -> api::ExtendedCommunity {
+    use api::extended_community::Extcom as E;
+    let sub = if fault == "subtype256" { 256 } else { 2 };
+    let asn = if fault == "asn65536" { 65536 } else { 65001 };
+    let admin16 = if fault == "admin65536" { 65536 } else { 77 };
+    let a4 = if fault == "badaddr" { "300.1.1.1".to_string() } else { "192.0.2.7".to_string() };
+    let e = match kind {
+        "twoas" => E::TwoOctetAsSpecific(api::TwoOctetAsSpecificExtended {
+            is_transitive: true,
+            sub_type: sub,
+            asn,
+            local_admin: if fault == "admin65536" { 65536 } else { 100 },
+        }),
+        "ipv4" => E::Ipv4AddressSpecific(api::IPv4AddressSpecificExtended {
+            is_transitive: true,
+            sub_type: sub,
+            address: a4,
+            local_admin: admin16,
+        }),
+        "fouras" => E::FourOctetAsSpecific(api::FourOctetAsSpecificExtended {
+            is_transitive: false,
+            sub_type: sub,
+            asn: 4_200_000_001,
+            local_admin: admin16,
+        }),
+        "mup" => E::Mup(api::MupExtended { sub_type: if fault == "subtype256" { 256 } else { 0 }, segment_id2: admin16, segment_id4: 9 }),
+        "unknown" => E::Unknown(api::UnknownExtended {
+            r#type: 0x43,
+            value: match fault {
+                "len7" => vec![0x43, 1, 2, 3, 4, 5, 6],
+                "len9" => vec![0x43, 1, 2, 3, 4, 5, 6, 7, 8],
+                _ => vec![0x43, 1, 2, 3, 4, 5, 6, 7],
+            },
+        }),
+        "rate" => E::TrafficRate(api::TrafficRateExtended { asn, rate: 1000.0 }),
+        "action" => E::TrafficAction(api::TrafficActionExtended { terminal: true, sample: false }),
+        "redirect2" => E::RedirectTwoOctetAsSpecific(api::RedirectTwoOctetAsSpecificExtended { asn, local_admin: 5 }),
+        "remark" => E::TrafficRemark(api::TrafficRemarkExtended { dscp: 46 }),
+        "redirect4addr" => E::RedirectIpv4AddressSpecific(api::RedirectIPv4AddressSpecificExtended { address: a4, local_admin: admin16 }),
+        "redirect4as" => E::RedirectFourOctetAsSpecific(api::RedirectFourOctetAsSpecificExtended { asn: 4_200_000_001, local_admin: admin16 }),
+        "unsupported" => E::Color(api::ColorExtended { color: 7 }),
+        "none" => return api::ExtendedCommunity { extcom: None },
+        x => panic!("harness: ext kind {x}"),
+    };
+    api::ExtendedCommunity { extcom: Some(e) }
+}
+
+fn build_attr(kind: &str, a: &str, b: &str, segs: &[(u32, u32)]) -> api::Attribute {
+    use api::attribute::Attr as A;
+    match kind {
+        "origin" => wrap(A::Origin(api::OriginAttribute { origin: num(a) })),
+        "aspath" => wrap(A::AsPath(api::AsPathAttribute {
+            segments: segs
+                .iter()
+                .map(|(t, n)| api::AsSegment { r#type: *t as i32, numbers: (0..*n).map(|i| 65001 + i).collect() })
+                .collect(),
+        })),
+        "nexthop" => wrap(A::NextHop(api::NextHopAttribute { next_hop: addr(a) })),
+        "med" => wrap(A::MultiExitDisc(api::MultiExitDiscAttribute { med: num(a) })),
+        "localpref" => wrap(A::LocalPref(api::LocalPrefAttribute { local_pref: num(a) })),
+        "atomic" => wrap(A::AtomicAggregate(api::AtomicAggregateAttribute {})),
+        "aggregator" => wrap(A::Aggregator(api::AggregatorAttribute { asn: num(a), address: addr(b) })),
+        "communities" => wrap(A::Communities(api::CommunitiesAttribute { communities: (0..num(a)).map(|i| (65001 << 16) | i).collect() })),
+        "originator" => wrap(A::OriginatorId(api::OriginatorIdAttribute { id: addr(a) })),
+        "clusterlist" => {
+            let n = num(a);
+            let ids = (0..n).map(|i| if i + 1 == n { addr(b) } else { "192.0.2.200".to_string() }).collect();
+            wrap(A::ClusterList(api::ClusterListAttribute { ids }))
+        }
+        "largecomm" => wrap(A::LargeCommunities(api::LargeCommunitiesAttribute {
+            communities: (0..num(a)).map(|i| api::LargeCommunity { global_admin: 4_200_000_001, local_data1: i, local_data2: u32::MAX }).collect(),
+        })),
+        "extcomm" => wrap(A::ExtendedCommunities(api::ExtendedCommunitiesAttribute { communities: vec![ext(a, b)] })),
+        "unknown" => wrap(A::Unknown(api::UnknownAttribute { flags: 0xc0, r#type: num(a), value: (0..num(b)).map(|i| i as u8 + 1).collect() })),
+        "mpreach" => {
+            let family = match a {
+                "none" => None,
+                "ipv4" => Some(api::Family { afi: 1, safi: 1 }),
+                "ipv6" => Some(api::Family { afi: 2, safi: 1 }),
+                "fs4" => Some(api::Family { afi: 1, safi: 133 }),
+                _ => Some(api::Family { afi: 70000, safi: 300 }),
+            };
+            let next_hops = match b {
+                "none" => vec![],
+                "v4" => vec![addr("v4")],
+                "v6" => vec![addr("v6")],
+                "garbage" => vec![addr("garbage")],
+                _ => vec![addr("v4"), addr("v6")],
+            };
+            wrap(A::MpReach(api::MpReachNlriAttribute { family, next_hops, nlris: vec![] }))
+        }
+        "missing" => api::Attribute { attr: None },
+        "unsupported" => match a {
+            "as4path" => wrap(A::As4Path(api::As4PathAttribute { segments: vec![api::AsSegment { r#type: 2, numbers: vec![65001] }] })),
+            "as4aggregator" => wrap(A::As4Aggregator(api::As4AggregatorAttribute { asn: 65001, address: addr("v4") })),
+            "aigp" => wrap(A::Aigp(api::AigpAttribute::default())),
+            "pmsi" => wrap(A::PmsiTunnel(api::PmsiTunnelAttribute::default())),
+            "ip6ext" => wrap(A::Ip6ExtendedCommunities(api::Ip6ExtendedCommunitiesAttribute::default())),
+            _ => wrap(A::MpUnreach(api::MpUnreachNlriAttribute::default())),
+        },
+        x => panic!("harness: attr kind {x}"),
+    }
+}
+
+// ------------------------------------------------------------------------------------------ projection of an Attribute
+
+/// pi(Attribute) as the JSON record of spec/ApiValue (WellFormed is evaluated there, not here).
+fn desc(a: &Attribute) -> String {
+    let (kind, len, val) = match (a.value(), a.binary()) {
+        (Some(v), _) => ("val", 0usize, v.to_string()),
+        (None, Some(b)) => ("bin", b.len(), String::new()),
+        (None, None) => ("none", 0, String::new()),
+    };
+    let mut segs = Vec::new();
+    let mut exact = true;
+    if let Some(b) = a.binary() {
+        if a.code() == Attribute::AS_PATH || a.code() == Attribute::AS4_PATH {
+            let mut pos = 0usize;
+            while pos < b.len() {
+                if pos + 2 > b.len() {
+                    exact = false;
+                    break;
+                }
+                let (t, n) = (b[pos], b[pos + 1] as usize);
+                segs.push(format!("{{\"t\":{},\"n\":{}}}", t, n));
+                pos += 2 + 4 * n;
+                if pos > b.len() {
+                    exact = false;
+                }
+            }
+        } else if a.code() == Attribute::MP_REACH {
+            exact = b.len() >= 5 && b.len() == 5 + b[3] as usize;
+        }
+    }
+    format!(
+        "{{\"code\":{},\"kind\":\"{}\",\"len\":{},\"val\":\"{}\",\"segs\":[{}],\"exact\":{}}}",
+        a.code(),
+        kind,
+        len,
+        val,
+        segs.join(","),
+        exact
+    )
+}
+
+const NO_DESC: &str = "{\"code\":0,\"kind\":\"none\",\"len\":0,\"val\":\"\",\"segs\":[],\"exact\":false}";
+
+// ------------------------------------------------------------------------------------------ behavioural monitors
+
+fn attr_payload(a: &Attribute) -> (u8, Vec<u8>) {
+    (a.code(), match a.binary() {
+        Some(b) => b.clone(),
+        None => a.value().map(|v| v.to_be_bytes().to_vec()).unwrap_or_default(),
+    })
+}
+
+/// attrs of a complete announcement that carries `a` (ORIGIN / AS_PATH supplied when `a` is neither)
+fn with_base(a: &Attribute) -> Vec<Attribute> {
+    let mut v = Vec::new();
+    if a.code() != Attribute::ORIGIN {
+        v.push(Attribute::new_with_value(Attribute::ORIGIN, 0).unwrap());
+    }
+    if a.code() != Attribute::AS_PATH {
+        v.push(Attribute::new_with_bin(Attribute::AS_PATH, vec![2, 1, 0, 0, 0xfd, 0xe9]).unwrap());
+    }
+    v.push(a.clone());
+    v
+}
+
+/// Announce `net` of `family` with `attrs` and decode it with the codec negotiated from the opposite side.
+fn over_the_wire(
+    family: Family,
+    net: &Nlri,
+    nexthop: Option<bgp::Nexthop>,
+    attrs: Vec<Attribute>,
+) -> Result<(Vec<Nlri>, Vec<(u8, Vec<u8>)>), String> {
+    let fams = vec![family, Family::IPV4];
+    let (mut tx, mut rx) = samples::codec_pair(&fams, true, false, false, false);
+    let msg = bgp::Message::Update(bgp::Update::Reach {
+        family,
+        entries: vec![packet::PathNlri { path_id: 0, nlri: net.clone() }],
+        nexthop,
+        attr: Arc::new(attrs),
+    });
+    let mut buf = bytes::BytesMut::new();
+    tx.encode_to(&msg, &mut buf).map_err(|e| format!("encoder refuses: {e:?}"))?;
+    let mut nets = Vec::new();
+    let mut got = Vec::new();
+    while !buf.is_empty() {
+        let parsed = rx
+            .try_parse(&mut buf)
+            .map_err(|n| format!("peer answers NOTIFICATION {}/{}", n.notification_code(), n.notification_subcode()))?
+            .ok_or_else(|| "peer cannot frame what was sent".to_string())?;
+        let msgs = bgp::validate_message(parsed, false)
+            .map_err(|n| format!("peer's validation answers NOTIFICATION {}/{}", n.notification_code(), n.notification_subcode()))?;
+        for m in msgs {
+            match m {
+                bgp::Message::Update(bgp::Update::Reach { entries, attr, .. }) => {
+                    nets.extend(entries.into_iter().map(|e| e.nlri));
+                    got = attr.iter().map(attr_payload).collect();
+                }
+                bgp::Message::Update(bgp::Update::Unreach { .. }) => return Err("peer treats the announcement as a withdrawal".into()),
+                _ => {}
+            }
+        }
+    }
+    Ok((nets, got))
+}
+
+fn wire_attr(a: &Attribute) -> String {
+    if matches!(a.code(), Attribute::NEXTHOP | Attribute::MP_REACH | Attribute::MP_UNREACH | Attribute::AS4_PATH | Attribute::AS4_AGGREGATOR) {
+        return "na".into(); // carried in the message's own fields / synthesized by the encoder, never stored
+    }
+    let net = Nlri::V4(Ipv4Net { addr: Ipv4Addr::new(198, 51, 100, 0), mask: 24 });
+    let r = catch_unwind(AssertUnwindSafe(|| over_the_wire(Family::IPV4, &net, Some(samples::nexthop_v4()), with_base(a))));
+    match r {
+        Err(e) => format!("panic: {}", panic_msg(e)),
+        Ok(Err(e)) => format!("error: {e}"),
+        Ok(Ok((_, got))) => {
+            if got.contains(&attr_payload(a)) {
+                "same".into()
+            } else {
+                "diff".into()
+            }
+        }
+    }
+}
+
+fn rt_attr(a: &Attribute) -> String {
+    if a.code() == Attribute::MP_REACH {
+        return "na".into(); // the API form of MP_REACH carries NLRI the internal form deliberately omits
+    }
+    match catch_unwind(AssertUnwindSafe(|| attr_from_api(attr_to_api(a)))) {
+        Err(e) => format!("panic: {}", panic_msg(e)),
+        Ok(Err(_)) => "rejected".into(),
+        Ok(Ok(b)) => {
+            if &b == a {
+                "same".into()
+            } else if a.code() == Attribute::LS {
+                "known-ls-attr".into() // known finding `ls-attribute-api-form-lossy`
+            } else {
+                "diff".into()
+            }
+        }
+    }
+}
+
+fn peer_source() -> Arc<table::Source> {
+    Arc::new(table::Source::new(
+        "192.0.2.77".parse().unwrap(),
+        "192.0.2.254".parse().unwrap(),
+        65002,
+        65001,
+        Ipv4Addr::new(192, 0, 2, 77),
+        table::PeerRole::Ebgp,
+    ))
+}
+
+/// A policy that looks at and rewrites every attribute kind it can.
+fn kitchen_sink() -> Arc<table::PolicyAssignment> {
+    use table::{Actions, ConditionConfig as CC, DefinedSetConfig as DS, MatchOption as MO};
+    let mut t = table::PolicyTable::new();
+    let ok = |r: Result<(), table::TableError>| r.map_err(|_| ()).expect("harness policy");
+    ok(t.add_defined_set(DS::AsPath { name: "as".into(), patterns: vec!["_65001$".into(), "^65002_".into(), "_65003_".into()] }));
+    ok(t.add_defined_set(DS::Community { name: "cs".into(), patterns: vec!["65001:1".into()] }));
+    ok(t.add_defined_set(DS::ExtCommunity { name: "es".into(), patterns: vec!["rt:65001:100".into()] }));
+    ok(t.add_defined_set(DS::LargeCommunity { name: "ls".into(), patterns: vec!["4200000001:1:2".into()] }));
+    let conds: Vec<CC> = vec![
+        CC::AsPathSet("as".into(), MO::Any),
+        CC::AsPathSet("as".into(), MO::All),
+        CC::AsPathSet("as".into(), MO::Invert),
+        CC::CommunitySet("cs".into(), MO::Any),
+        CC::ExtCommunitySet("es".into(), MO::Any),
+        CC::LargeCommunitySet("ls".into(), MO::Any),
+        CC::AsPathLength(table::Comparison::Ge, 2),
+        CC::LocalPrefEq(100),
+        CC::MedEq(0),
+        CC::Origin(0),
+        CC::CommunityCount(table::Comparison::Ge, 1),
+    ];
+    let mut names = Vec::new();
+    for (i, c) in conds.into_iter().enumerate() {
+        let n = format!("c{i}");
+        ok(t.add_statement(&n, vec![c], None, Actions::default()));
+        names.push(n);
+    }
+    let acts = Actions {
+        community: Some(table::CommunityAction { action_type: table::CommunityActionType::Add, communities: vec![(65001 << 16) | 9] }),
+        local_pref: Some(table::LocalPrefAction { value: 300 }),
+        med: Some(table::MedAction { action_type: table::MedActionType::Mod, value: 5 }),
+        as_prepend: Some(table::AsPrependAction { asn: 65009, repeat: 2, use_left_most: true }),
+        ext_community: Some(table::ExtCommunityAction { action_type: table::CommunityActionType::Add, communities: vec![[0, 2, 0xfd, 0xe9, 0, 0, 0, 9]] }),
+        large_community: Some(table::LargeCommunityAction { action_type: table::CommunityActionType::Add, communities: vec![(1, 2, 3)] }),
+        origin: None,
+        nexthop: None,
+    };
+    ok(t.add_statement("acts", vec![], None, acts));
+    names.push("acts".into());
+    ok(t.add_policy("pol", names));
+    let (_, a) = t
+        .add_assignment("global", table::PolicyDirection::Import, table::Disposition::Accept, vec!["pol".into()])
+        .map_err(|_| ())
+        .expect("harness assignment");
+    a
+}
+
+/// selection next to another path, policy evaluation, encoding: "ok" or "panic: ..."
+fn use_value(family: Family, net: &Nlri, nexthop: Option<bgp::Nexthop>, attrs: Vec<Attribute>, pol: &Arc<table::PolicyAssignment>) -> String {
+    let attrs = Arc::new(attrs);
+    let step = |name: &str, f: &mut dyn FnMut()| -> Option<String> {
+        catch_unwind(AssertUnwindSafe(f)).err().map(|e| format!("panic in {name}: {}", panic_msg(e)))
+    };
+    // 1. best-path selection: the value next to a peer-learned path, inserted before and after it
+    let other = Arc::new(vec![
+        Attribute::new_with_value(Attribute::ORIGIN, 0).unwrap(),
+        Attribute::new_with_bin(Attribute::AS_PATH, vec![2, 1, 0, 0, 0xfd, 0xea]).unwrap(),
+        Attribute::new_with_value(Attribute::MULTI_EXIT_DESC, 10).unwrap(),
+        Attribute::new_with_value(Attribute::LOCAL_PREF, 100).unwrap(),
+        Attribute::new_with_value(Attribute::ORIGINATOR_ID, 7).unwrap(),
+        Attribute::new_with_bin(Attribute::CLUSTER_LIST, vec![1, 1, 1, 1]).unwrap(),
+    ]);
+    for first_local in [true, false] {
+        let mut t = table::Table::new(0);
+        let mut f = || {
+            let ins_local = |t: &mut table::Table| {
+                let _ = t.insert(table::Source::local(), family, net.clone(), 0, nexthop, attrs.clone(), None, false, false, None, 0);
+            };
+            let ins_peer = |t: &mut table::Table| {
+                let _ = t.insert(peer_source(), family, net.clone(), 0, nexthop.or(Some(samples::nexthop_v4())), other.clone(), None, false, false, None, 0);
+            };
+            if first_local {
+                ins_local(&mut t);
+                ins_peer(&mut t);
+            } else {
+                ins_peer(&mut t);
+                ins_local(&mut t);
+            }
+            let _ = t.collect_loc_rib_paths(&family);
+            let d = t.destinations(table::TableQuery::Global, family, vec![], true);
+            for e in d {
+                for p in e.paths {
+                    for a in p.attr.iter() {
+                        let _ = attr_to_api(a);
+                    }
+                }
+                let _ = nlri_to_api(&e.net);
+            }
+        };
+        if let Some(e) = step("best-path selection / listing", &mut f) {
+            return e;
+        }
+    }
+    // 2. policy evaluation
+    let mut nh = nexthop;
+    let src = peer_source();
+    if let Some(e) = step("policy evaluation", &mut || {
+        let _ = table::apply_import(pol, None, &src, net, &attrs, &mut nh);
+    }) {
+        return e;
+    }
+    // 3. encoding (4-octet and 2-octet AS sessions, add-path on and off)
+    for as4 in [true, false] {
+        for addpath in [false, true] {
+            let mut f = || {
+                let (mut tx, _) = samples::codec_pair(&[family, Family::IPV4], as4, addpath, false, false);
+                let msg = bgp::Message::Update(bgp::Update::Reach {
+                    family,
+                    entries: vec![packet::PathNlri { path_id: 1, nlri: net.clone() }],
+                    nexthop,
+                    attr: attrs.clone(),
+                });
+                let mut buf = bytes::BytesMut::new();
+                let _ = tx.encode_to(&msg, &mut buf);
+                let wd = bgp::Message::Update(bgp::Update::Unreach { family, entries: vec![packet::PathNlri { path_id: 1, nlri: net.clone() }] });
+                let _ = tx.encode_to(&wd, &mut buf);
+            };
+            if let Some(e) = step("encoding", &mut f) {
+                return e;
+            }
+        }
+    }
+    "ok".into()
+}
+
+// ------------------------------------------------------------------------------------------ NLRI cases
+
+fn fam(tag: &str) -> Family {
+    for f in samples::families() {
+        if samples::family_name(f) == tag {
+            return f;
+        }
+    }
+    panic!("harness: family {tag}")
+}
+
+fn prefix(tag: &str) -> (String, u32) {
+    match tag {
+        "v4/24" => ("198.51.100.0".into(), 24),
+        "v4/0" => ("0.0.0.0".into(), 0),
+        "v4/32" => ("198.51.100.7".into(), 32),
+        "v4/33" => ("198.51.100.0".into(), 33),
+        "v4/300" => ("198.51.100.0".into(), 300),
+        "v4/host" => ("198.51.100.77".into(), 24),
+        "v6/64" => ("2001:db8:1:2::".into(), 64),
+        "v6/128" => ("2001:db8::7".into(), 128),
+        "v6/129" => ("2001:db8::".into(), 129),
+        "v6/host" => ("2001:db8::7".into(), 64),
+        "garbage" => ("not-a-prefix".into(), 24),
+        "empty" => (String::new(), 0),
+        "nord" | "badrd" => ("198.51.100.0".into(), 24),
+        x => panic!("harness: prefix tag {x}"),
+    }
+}
+
+fn labels(tag: &str) -> Vec<u32> {
+    match tag {
+        "none" => vec![],
+        "one" => vec![100],
+        "two" => vec![100, 200],
+        _ => vec![1 << 20],
+    }
+}
+
+fn rd_ok() -> Option<api::RouteDistinguisher> {
+    Some(api::RouteDistinguisher {
+        rd: Some(api::route_distinguisher::Rd::TwoOctetAsn(api::RouteDistinguisherTwoOctetAsn { admin: 65001, assigned: 100 })),
+    })
+}
+
+fn rd_for(tag: &str) -> Option<api::RouteDistinguisher> {
+    match tag {
+        "nord" => None,
+        "badrd" => Some(api::RouteDistinguisher {
+            rd: Some(api::route_distinguisher::Rd::TwoOctetAsn(api::RouteDistinguisherTwoOctetAsn { admin: 65536, assigned: 100 })),
+        }),
+        _ => rd_ok(),
+    }
+}
+
+fn esi_ok() -> Option<api::EthernetSegmentIdentifier> {
+    Some(api::EthernetSegmentIdentifier { r#type: 0, value: vec![1, 2, 3, 4, 5, 6, 7, 8, 9] })
+}
+
+fn build_nlri(kind: &str, a: &str, b: &str) -> api::Nlri {
+    use api::nlri::Nlri as N;
+    let n = match kind {
+        "prefix" => {
+            let (p, l) = prefix(a);
+            N::Prefix(api::IpAddressPrefix { prefix: p, prefix_len: l })
+        }
+        "labeled" => {
+            let (p, l) = prefix(a);
+            N::LabeledPrefix(api::LabeledIpAddressPrefix { labels: labels(b), prefix: p, prefix_len: l })
+        }
+        "vpn" => {
+            let (p, l) = prefix(a);
+            N::LabeledVpnIpPrefix(api::LabeledVpnipAddressPrefix { labels: labels(b), rd: rd_for(a), prefix: p, prefix_len: l })
+        }
+        "evpn-macadv" => N::EvpnMacadv(api::EvpnmacipAdvertisementRoute {
+            rd: if a == "nord" { None } else { rd_ok() },
+            esi: match a {
+                "noesi" => None,
+                "esi-short" => Some(api::EthernetSegmentIdentifier { r#type: 0, value: vec![1, 2, 3] }),
+                "esi-long" => Some(api::EthernetSegmentIdentifier { r#type: 300, value: vec![0; 10] }),
+                _ => esi_ok(),
+            },
+            ethernet_tag: 5,
+            mac_address: match a {
+                "badmac" => "zz:00:00:00:00:01".into(),
+                "shortmac" => "00:11:22".into(),
+                _ => "00:11:22:33:44:55".into(),
+            },
+            ip_address: if a == "badip" { "999.1.1.1".into() } else { "192.0.2.9".into() },
+            labels: if a == "nolabel" { vec![] } else { vec![100] },
+            ..Default::default()
+        }),
+        "evpn-prefix" => N::EvpnIpPrefix(api::EvpnipPrefixRoute {
+            rd: rd_ok(),
+            esi: esi_ok(),
+            ethernet_tag: 1,
+            ip_prefix: if a == "len129" { "2001:db8::".into() } else { "198.51.100.0".into() },
+            ip_prefix_len: match a {
+                "len33v4" => 33,
+                "len129" => 129,
+                "len200" => 200,
+                _ => 24,
+            },
+            gw_address: match a {
+                "badgw" => "nope".into(),
+                "gwmix" => "2001:db8::1".into(),
+                _ => "192.0.2.1".into(),
+            },
+            label: 100,
+            ..Default::default()
+        }),
+        "evpn-multicast" => N::EvpnMulticast(api::EvpnInclusiveMulticastEthernetTagRoute {
+            rd: if a == "nord" { None } else { rd_ok() },
+            ethernet_tag: 1,
+            ip_address: if a == "badip" { "x".into() } else { "192.0.2.1".into() },
+        }),
+        "srpolicy" => N::SrPolicy(api::SrPolicyNlri {
+            length: 96,
+            distinguisher: 1,
+            color: 2,
+            endpoint: match a {
+                "ep4" => vec![192, 0, 2, 1],
+                "ep16" => vec![0x20, 1, 0xd, 0xb8, 0, 0, 0, 0, 0, 0, 0, 0, 0, 0, 0, 1],
+                "ep0" => vec![],
+                _ => vec![1, 2, 3, 4, 5],
+            },
+        }),
+        "rtc" => N::RouteTargetMembership(api::RouteTargetMembershipNlri {
+            asn: if a == "wildcard" { 0 } else { 65001 },
+            rt: match a {
+                "exact" => Some(api::RouteTarget {
+                    rt: Some(api::route_target::Rt::TwoOctetAsSpecific(api::TwoOctetAsSpecificExtended {
+                        is_transitive: true,
+                        sub_type: 2,
+                        asn: 65001,
+                        local_admin: 100,
+                    })),
+                }),
+                "badrt" => Some(api::RouteTarget {
+                    rt: Some(api::route_target::Rt::TwoOctetAsSpecific(api::TwoOctetAsSpecificExtended {
+                        is_transitive: true,
+                        sub_type: 2,
+                        asn: 70000,
+                        local_admin: 100,
+                    })),
+                }),
+                _ => None,
+            },
+        }),
+        "flowspec" => N::FlowSpec(api::FlowSpecNlri {
+            rules: match a {
+                "empty" => vec![],
+                _ => vec![api::FlowSpecRule {
+                    rule: Some(api::flow_spec_rule::Rule::IpPrefix(api::FlowSpecIpPrefix {
+                        r#type: if a == "badtype" { 77 } else { 1 },
+                        prefix_len: if a == "len300" { 300 } else { 24 },
+                        prefix: if a == "badprefix" {
+                            "nope".into()
+                        } else if b == "v6" {
+                            "2001:db8::".into()
+                        } else {
+                            "198.51.100.0".into()
+                        },
+                        offset: 0,
+                    })),
+                }],
+            },
+        }),
+        "mup-isd" => N::MupInterworkSegmentDiscovery(api::MupInterworkSegmentDiscoveryRoute {
+            rd: if a == "nord" { None } else { rd_ok() },
+            prefix: match a {
+                "noslash" => "198.51.100.0".into(),
+                "len300" => "198.51.100.0/300".into(),
+                _ => "198.51.100.0/24".into(),
+            },
+        }),
+        "mup-t1st" => N::MupType1SessionTransformed(api::MupType1SessionTransformedRoute {
+            rd: rd_ok(),
+            prefix: "198.51.100.7/32".into(),
+            teid: 1,
+            qfi: if a == "qfi256" { 256 } else { 9 },
+            endpoint_address_length: 32,
+            endpoint_address: if a == "badep" { "x".into() } else { "192.0.2.1".into() },
+            ..Default::default()
+        }),
+        "none" => return api::Nlri { nlri: None },
+        x => panic!("harness: nlri kind {x}"),
+    };
+    api::Nlri { nlri: Some(n) }
+}
+
+fn host_bits4(a: Ipv4Addr, m: u8) -> bool {
+    m < 32 && (u32::from(a) & (u32::MAX >> m)) != 0
+}
+
+fn host_bits6(a: Ipv6Addr, m: u8) -> bool {
+    m < 128 && (u128::from(a) & (u128::MAX >> m)) != 0
+}
+
+fn ip_mask(a: std::net::IpAddr, m: u8) -> (u8, u8, bool) {
+    match a {
+        std::net::IpAddr::V4(x) => (m, 32, m <= 32 && host_bits4(x, m)),
+        std::net::IpAddr::V6(x) => (m, 128, m <= 128 && host_bits6(x, m)),
+    }
+}
+
+/// pi(Nlri) for spec/ApiValue NlriWellFormed
+fn nlri_desc(n: &Nlri, family: Family) -> String {
+    let famok = samples::nlri_samples(family).first().map(|s| std::mem::discriminant(s) == std::mem::discriminant(n)).unwrap_or(false);
+    let lab_ok = |l: &packet::mpls::MplsLabelStack| !l.labels().is_empty() && l.labels().iter().all(|x| x.value() < (1 << 20));
+    let (variant, (mask, maxmask, host), labelsok) = match n {
+        Nlri::V4(p) => ("V4", (p.mask, 32, p.mask <= 32 && host_bits4(p.addr, p.mask)), true),
+        Nlri::V6(p) => ("V6", (p.mask, 128, p.mask <= 128 && host_bits6(p.addr, p.mask)), true),
+        Nlri::LabeledV4(p) => ("LabeledV4", (p.prefix.mask, 32, p.prefix.mask <= 32 && host_bits4(p.prefix.addr, p.prefix.mask)), lab_ok(&p.labels)),
+        Nlri::LabeledV6(p) => ("LabeledV6", (p.prefix.mask, 128, p.prefix.mask <= 128 && host_bits6(p.prefix.addr, p.prefix.mask)), lab_ok(&p.labels)),
+        Nlri::VpnV4(p) => ("VpnV4", (p.prefix.mask, 32, p.prefix.mask <= 32 && host_bits4(p.prefix.addr, p.prefix.mask)), lab_ok(&p.labels)),
+        Nlri::VpnV6(p) => ("VpnV6", (p.prefix.mask, 128, p.prefix.mask <= 128 && host_bits6(p.prefix.addr, p.prefix.mask)), lab_ok(&p.labels)),
+        // the EVPN type-5 decoder takes the address family from the route length and does not bound the prefix length by it
+        Nlri::Evpn(packet::evpn::EvpnNlri::EthernetIpPrefix(r)) => ("EvpnPrefix", (r.prefix_len, 128, ip_mask(r.ip_prefix, r.prefix_len).2), true),
+        Nlri::Evpn(_) => ("Evpn", (0, 0, false), true),
+        Nlri::Mup(mup::MupNlri::InterworkSegmentDiscovery(r)) => ("MupIsd", ip_mask(r.prefix_addr, r.prefix_len), true),
+        Nlri::Mup(mup::MupNlri::Type1SessionTransformed(r)) => ("MupT1st", ip_mask(r.prefix_addr, r.prefix_len), true),
+        Nlri::Mup(_) => ("Mup", (0, 0, false), true),
+        Nlri::FlowspecV4(f) => {
+            let mut m = (0u8, 32u8, false);
+            for c in &f.components {
+                if let flowspec::FlowspecV4Component::DstPrefix(p) | flowspec::FlowspecV4Component::SrcPrefix(p) = c {
+                    m = (p.mask, 32, p.mask <= 32 && host_bits4(p.addr, p.mask));
+                }
+            }
+            ("FlowspecV4", m, true)
+        }
+        Nlri::FlowspecV6(f) => ("FlowspecV6", (0, 128, false), true),
+        Nlri::FlowspecVpnV4(_) => ("FlowspecVpnV4", (0, 0, false), true),
+        Nlri::FlowspecVpnV6(_) => ("FlowspecVpnV6", (0, 0, false), true),
+        Nlri::Ls(_) => ("Ls", (0, 0, false), true),
+        Nlri::SrPolicy(_) => ("SrPolicy", (0, 0, false), true),
+        Nlri::Rtc(_) => ("Rtc", (0, 0, false), true),
+    };
+    format!(
+        "{{\"variant\":\"{}\",\"famok\":{},\"mask\":{},\"maxmask\":{},\"host\":{},\"labelsok\":{}}}",
+        variant, famok, mask, maxmask, host, labelsok
+    )
+}
+
+const NO_NDESC: &str = "{\"variant\":\"\",\"famok\":false,\"mask\":0,\"maxmask\":0,\"host\":false,\"labelsok\":false}";
+
+/// What the GoBGP-compatible API schema cannot express about a BGP-LS NLRI (known finding
+/// `ls-nlri-api-form-lossy`): node-descriptor numbers whose value is 0 are indistinguishable from absent ones, and link /
+/// prefix descriptors have no Multi-Topology-ID field.  Returns the NLRI with exactly that information removed.
+fn ls_schema_view(n: &Nlri) -> Nlri {
+    let nd = |d: &ls::NodeDescriptor| {
+        let z = |v: Option<u32>| v.filter(|x| *x != 0);
+        ls::NodeDescriptor {
+            asn: z(d.asn),
+            bgp_ls_id: z(d.bgp_ls_id),
+            ospf_area_id: z(d.ospf_area_id),
+            igp_router_id: d.igp_router_id.clone(),
+            bgp_router_id: d.bgp_router_id,
+            bgp_confederation_member: z(d.bgp_confederation_member),
+        }
+    };
+    match n {
+        Nlri::Ls(ls::BgpLsNlri::Node(x)) => {
+            Nlri::Ls(ls::BgpLsNlri::Node(ls::BgpLsNodeNlri { protocol_id: x.protocol_id, identifier: x.identifier, local_node: nd(&x.local_node) }))
+        }
+        Nlri::Ls(ls::BgpLsNlri::Link(x)) => Nlri::Ls(ls::BgpLsNlri::Link(ls::BgpLsLinkNlri {
+            protocol_id: x.protocol_id,
+            identifier: x.identifier,
+            local_node: nd(&x.local_node),
+            remote_node: nd(&x.remote_node),
+            link_desc: x.link_desc.iter().filter(|t| !matches!(t, ls::LinkDescTlv::MultiTopoId(_))).cloned().collect(),
+        })),
+        Nlri::Ls(ls::BgpLsNlri::PrefixV4(x)) => Nlri::Ls(ls::BgpLsNlri::PrefixV4(ls::BgpLsPrefixNlri {
+            protocol_id: x.protocol_id,
+            identifier: x.identifier,
+            local_node: nd(&x.local_node),
+            prefix_desc: x.prefix_desc.iter().filter(|t| !matches!(t, ls::PrefixDescTlv::MultiTopoId(_))).cloned().collect(),
+        })),
+        Nlri::Ls(ls::BgpLsNlri::PrefixV6(x)) => Nlri::Ls(ls::BgpLsNlri::PrefixV6(ls::BgpLsPrefixNlri {
+            protocol_id: x.protocol_id,
+            identifier: x.identifier,
+            local_node: nd(&x.local_node),
+            prefix_desc: x.prefix_desc.iter().filter(|t| !matches!(t, ls::PrefixDescTlv::MultiTopoId(_))).cloned().collect(),
+        })),
+        Nlri::Ls(ls::BgpLsNlri::Srv6Sid(x)) => Nlri::Ls(ls::BgpLsNlri::Srv6Sid(ls::BgpLsSrv6SidNlri {
+            protocol_id: x.protocol_id,
+            identifier: x.identifier,
+            local_node: nd(&x.local_node),
+            sids: x.sids.clone(),
+            multi_topo_ids: x.multi_topo_ids.clone(),
+        })),
+        other => other.clone(),
+    }
+}
+
+fn rt_nlri(n: &Nlri, family: Family) -> String {
+    match catch_unwind(AssertUnwindSafe(|| net_from_api(nlri_to_api(n), family))) {
+        Err(e) => format!("panic: {}", panic_msg(e)),
+        Ok(Err(_)) => "rejected".into(),
+        Ok(Ok(m)) => {
+            if &m == n {
+                "same".into()
+            } else if matches!(n, Nlri::Ls(_)) && m == ls_schema_view(n) {
+                "known-ls-schema".into()
+            } else {
+                "diff".into()
+            }
+        }
+    }
+}
+
+fn wire_nlri(n: &Nlri, family: Family) -> String {
+    let r = catch_unwind(AssertUnwindSafe(|| over_the_wire(family, n, samples::nexthop_for(family), samples::base_attrs())));
+    match r {
+        Err(e) => format!("panic: {}", panic_msg(e)),
+        Ok(Err(e)) => format!("error: {e}"),
+        Ok(Ok((nets, _))) => {
+            if nets.len() == 1 && &nets[0] == n {
+                "same".into()
+            } else {
+                "diff".into()
+            }
+        }
+    }
+}
+
+// ------------------------------------------------------------------------------------------ tests
+
+#[test]
+fn c17_cases() {
+    let inp = std::env::var("VERIF_IN").expect("VERIF_IN");
+    let outp = std::env::var("VERIF_OUT").expect("VERIF_OUT");
+    let mut out = std::io::BufWriter::new(std::fs::File::create(outp).unwrap());
+    let hook = std::panic::take_hook();
+    std::panic::set_hook(Box::new(|_| {}));
+    let pol = kitchen_sink();
+    for line in std::io::BufReader::new(std::fs::File::open(inp).unwrap()).lines() {
+        let line = line.unwrap();
+        let t: Vec<&str> = line.split('\t').collect();
+        if t.len() < 6 {
+            continue;
+        }
+        let i: usize = t[1].parse().unwrap();
+        if t[0] == "A" {
+            let segs: Vec<(u32, u32)> = t[5]
+                .split(',')
+                .filter(|s| !s.is_empty())
+                .map(|s| {
+                    let (a, b) = s.split_once(':').unwrap();
+                    (a.parse().unwrap(), b.parse().unwrap())
+                })
+                .collect();
+            let api_attr = build_attr(t[2], t[3], t[4], &segs);
+            let r = catch_unwind(AssertUnwindSafe(|| attr_from_api(api_attr)));
+            let s = match r {
+                Err(e) => format!(
+                    "{{\"i\":{i},\"res\":{{\"outcome\":\"panic\",\"desc\":{NO_DESC},\"rt\":\"na\",\"wire\":\"na\",\"use\":\"na\",\"note\":\"{}\"}}}}",
+                    esc(&panic_msg(e))
+                ),
+                Ok(Err(_)) => format!("{{\"i\":{i},\"res\":{{\"outcome\":\"err\",\"desc\":{NO_DESC},\"rt\":\"na\",\"wire\":\"na\",\"use\":\"na\",\"note\":\"\"}}}}"),
+                Ok(Ok(a)) => {
+                    let stored = !matches!(a.code(), Attribute::NEXTHOP | Attribute::MP_REACH | Attribute::MP_UNREACH);
+                    let net = Nlri::V4(Ipv4Net { addr: Ipv4Addr::new(198, 51, 100, 0), mask: 24 });
+                    let u = if stored { use_value(Family::IPV4, &net, Some(samples::nexthop_v4()), with_base(&a), &pol) } else { "ok".to_string() };
+                    format!(
+                        "{{\"i\":{i},\"res\":{{\"outcome\":\"ok\",\"desc\":{},\"rt\":\"{}\",\"wire\":\"{}\",\"use\":\"{}\",\"note\":\"\"}}}}",
+                        desc(&a),
+                        esc(&rt_attr(&a)),
+                        esc(&wire_attr(&a)),
+                        esc(&u)
+                    )
+                }
+            };
+            writeln!(out, "{s}").unwrap();
+        } else {
+            let family = fam(t[3]);
+            let api_nlri = build_nlri(t[2], t[4], if t[2] == "flowspec" && family.afi() == Family::AFI_IP6 { "v6" } else { t[5] });
+            let r = catch_unwind(AssertUnwindSafe(|| net_from_api(api_nlri, family)));
+            let s = match r {
+                Err(e) => format!(
+                    "{{\"i\":{i},\"res\":{{\"outcome\":\"panic\",\"desc\":{NO_NDESC},\"rt\":\"na\",\"wire\":\"na\",\"use\":\"na\",\"note\":\"{}\"}}}}",
+                    esc(&panic_msg(e))
+                ),
+                Ok(Err(_)) => format!("{{\"i\":{i},\"res\":{{\"outcome\":\"err\",\"desc\":{NO_NDESC},\"rt\":\"na\",\"wire\":\"na\",\"use\":\"na\",\"note\":\"\"}}}}"),
+                Ok(Ok(n)) => {
+                    let u = use_value(family, &n, samples::nexthop_for(family), samples::base_attrs(), &pol);
+                    format!(
+                        "{{\"i\":{i},\"res\":{{\"outcome\":\"ok\",\"desc\":{},\"rt\":\"{}\",\"wire\":\"{}\",\"use\":\"{}\",\"note\":\"{}\"}}}}",
+                        nlri_desc(&n, family),
+                        esc(&rt_nlri(&n, family)),
+                        esc(&wire_nlri(&n, family)),
+                        esc(&u),
+                        esc(&n.to_string())
+                    )
+                }
+            };
+            writeln!(out, "{s}").unwrap();
+        }
+    }
+    std::panic::set_hook(hook);
+}
+
+/// Extended communities reachable from the wire: every high type octet x a set of sub-types x three value patterns.
+fn extcom_universe() -> Vec<[u8; 8]> {
+    let mut v = Vec::new();
+    let subs: Vec<u8> = (0..=0x10).chain([0x80, 0xff]).collect();
+    for hi in 0..=255u8 {
+        for &sub in &subs {
+            for pat in [[0u8; 6], [0xff; 6], [1, 2, 3, 4, 5, 6]] {
+                let mut b = [0u8; 8];
+                b[0] = hi;
+                b[1] = sub;
+                b[2..].copy_from_slice(&pat);
+                v.push(b);
+            }
+        }
+    }
+    v
+}
+
+#[test]
+fn c17_roundtrip() {
+    let outp = std::env::var("VERIF_OUT").expect("VERIF_OUT");
+    let mut out = std::io::BufWriter::new(std::fs::File::create(outp).unwrap());
+    let hook = std::panic::take_hook();
+    std::panic::set_hook(Box::new(|_| {}));
+    let mut n_attr = 0u64;
+    let mut n_nlri = 0u64;
+    let mut report = |out: &mut std::io::BufWriter<std::fs::File>, kind: &str, what: &str, res: &str| {
+        writeln!(out, "{{\"kind\":\"{}\",\"what\":\"{}\",\"res\":\"{}\"}}", kind, esc(what), esc(res)).unwrap();
+    };
+    // 1. attribute samples, as built and as decoded from the wire (2- and 4-octet AS sessions)
+    let mut attrs: Vec<(String, Attribute)> = samples::attr_samples().into_iter().map(|a| (format!("sample code {}", a.code()), a)).collect();
+    for as4 in [true, false] {
+        let (mut tx, mut rx) = samples::codec_pair(&[Family::IPV4], as4, false, false, false);
+        let all: Vec<Attribute> = samples::attr_samples();
+        let msg = bgp::Message::Update(bgp::Update::Reach {
+            family: Family::IPV4,
+            entries: vec![packet::PathNlri { path_id: 0, nlri: Nlri::V4(Ipv4Net { addr: Ipv4Addr::new(198, 51, 100, 0), mask: 24 }) }],
+            nexthop: Some(samples::nexthop_v4()),
+            attr: Arc::new(all),
+        });
+        let mut buf = bytes::BytesMut::new();
+        tx.encode_to(&msg, &mut buf).map_err(|_| ()).expect("harness: encode samples");
+        while !buf.is_empty() {
+            let p = rx.try_parse(&mut buf).map_err(|_| ()).expect("harness: parse samples").expect("frame");
+            for m in bgp::validate_message(p, false).map_err(|_| ()).expect("harness: validate samples") {
+                if let bgp::Message::Update(bgp::Update::Reach { attr, .. }) = m {
+                    for a in attr.iter() {
+                        attrs.push((format!("decoded (as4={as4}) code {}", a.code()), a.clone()));
+                    }
+                }
+            }
+        }
+    }
+    // AS_PATH shapes the wire accepts
+    for (name, bin) in [
+        ("empty AS_PATH", vec![]),
+        ("AS_PATH with an empty segment", vec![2u8, 0]),
+        ("AS_PATH of all four segment types", vec![2, 1, 0, 0, 0xfd, 0xe9, 1, 2, 0, 0, 0, 1, 0, 0, 0, 2, 3, 1, 0, 0, 0xfd, 0xea, 4, 1, 0, 0, 0xfd, 0xeb]),
+        ("AS_PATH with 255 hops", {
+            let mut v = vec![2u8, 255];
+            for i in 0..255u32 {
+                v.extend_from_slice(&(65001 + i).to_be_bytes());
+            }
+            v
+        }),
+    ] {
+        attrs.push((name.to_string(), Attribute::new_with_bin(Attribute::AS_PATH, bin).unwrap()));
+    }
+    for (name, val) in [("ORIGIN 0", 0u32), ("ORIGIN 1", 1), ("ORIGIN 2", 2)] {
+        attrs.push((name.to_string(), Attribute::new_with_value(Attribute::ORIGIN, val).unwrap()));
+    }
+    for v in [0u32, 1, u32::MAX] {
+        attrs.push((format!("MED {v}"), Attribute::new_with_value(Attribute::MULTI_EXIT_DESC, v).unwrap()));
+        attrs.push((format!("LOCAL_PREF {v}"), Attribute::new_with_value(Attribute::LOCAL_PREF, v).unwrap()));
+        attrs.push((format!("ORIGINATOR_ID {v}"), Attribute::new_with_value(Attribute::ORIGINATOR_ID, v).unwrap()));
+    }
+    for (name, code, bin) in [
+        ("empty COMMUNITY", Attribute::COMMUNITY, vec![]),
+        ("empty CLUSTER_LIST", Attribute::CLUSTER_LIST, vec![]),
+        ("empty EXTENDED_COMMUNITY", Attribute::EXTENDED_COMMUNITY, vec![]),
+        ("empty LARGE_COMMUNITY", Attribute::LARGE_COMMUNITY, vec![]),
+        ("AGGREGATOR AS 0", Attribute::AGGREGATOR, vec![0, 0, 0, 0, 192, 0, 2, 1]),
+    ] {
+        attrs.push((name.to_string(), Attribute::new_with_bin(code, bin).unwrap()));
+    }
+    for (what, a) in &attrs {
+        n_attr += 1;
+        let r = rt_attr(a);
+        if r != "same" {
+            report(&mut out, "attr", what, &r);
+        }
+    }
+    // 2. extended communities: every type octet
+    let mut ec_bad: std::collections::BTreeMap<String, (u64, String)> = Default::default();
+    for b in extcom_universe() {
+        n_attr += 1;
+        let a = Attribute::new_with_bin(Attribute::EXTENDED_COMMUNITY, b.to_vec()).unwrap();
+        let r = rt_attr(&a);
+        if r != "same" {
+            let key = format!("{} type 0x{:02x} sub-type 0x{:02x}", r.split(':').next().unwrap_or(""), b[0], b[1]);
+            let e = ec_bad.entry(key).or_insert((0, format!("{:02x?}", b)));
+            e.0 += 1;
+        }
+    }
+    for (k, (n, first)) in ec_bad {
+        report(&mut out, "extcom", &format!("{k} ({n} value patterns, first {first})"), "diff");
+    }
+    // 3. NLRI samples of every family, as built and as decoded from the wire
+    for family in samples::families() {
+        for n in samples::nlri_samples(family) {
+            n_nlri += 1;
+            let r = rt_nlri(&n, family);
+            if r != "same" {
+                report(&mut out, "nlri", &format!("{} {}", samples::family_name(family), n), &r);
+            }
+            let w = catch_unwind(AssertUnwindSafe(|| over_the_wire(family, &n, samples::nexthop_for(family), samples::base_attrs())));
+            if let Ok(Ok((nets, _))) = w {
+                for m in nets {
+                    n_nlri += 1;
+                    let r = rt_nlri(&m, family);
+                    if r != "same" {
+                        report(&mut out, "nlri", &format!("{} {} (decoded)", samples::family_name(family), m), &r);
+                    }
+                }
+            }
+        }
+    }
+    writeln!(out, "{{\"summary\":{{\"attrs\":{n_attr},\"nlris\":{n_nlri}}}}}").unwrap();
+    std::panic::set_hook(hook);
+}
+
